@@ -11,6 +11,7 @@
 """
 import json
 import os
+import random
 import shutil
 import subprocess
 import sys
@@ -90,7 +91,8 @@ def run(chk, args):
                      seed=chk.seed, timeout=900)
         if not g["ok"]:
             raise vlib.Machinery("HistoryGen failed: %s\n%s" % (g["error"], g["out"][-1500:]))
-        hs = vlib.parse_printed(g["out"], "BEHAVIOUR")[:n]
+        prng = random.Random(chk.seed)
+        hs = vlib.one_per_trace(vlib.parse_printed(g["out"], "BEHAVIOUR"), prng)[:n]
         if not hs:
             raise vlib.Machinery("HistoryGen produced no behaviour")
         # histories over few objects, so that operations on the same Experiment / kernel / wrapper follow each other
@@ -99,7 +101,13 @@ def run(chk, args):
                       seed=chk.seed + 7, timeout=900)
         if not g2["ok"]:
             raise vlib.Machinery("HistoryGen (few objects) failed: %s\n%s" % (g2["error"], g2["out"][-1500:]))
-        hs += vlib.parse_printed(g2["out"], "BEHAVIOUR")[:n2]
+        hs += vlib.one_per_trace(vlib.parse_printed(g2["out"], "BEHAVIOUR"), prng)[:n2]
+        n3 = 80 if thorough else 8
+        g3 = vlib.tlc("HistoryGen", "HistoryGenWrap.cfg", workers=1, simulate="num=%d" % n3, depth=35,
+                      seed=chk.seed + 13, timeout=900)
+        if not g3["ok"]:
+            raise vlib.Machinery("HistoryGen (wrappers) failed: %s\n%s" % (g3["error"], g3["out"][-1500:]))
+        hs += vlib.one_per_trace(vlib.parse_printed(g3["out"], "BEHAVIOUR"), prng)[:n3]
     for h in hs:
         for w in ("w1", "w2"):              # the trace module's wrapper set; unused wrappers get a default model
             h["wmodel"].setdefault(w, "sphere")
